@@ -8,6 +8,7 @@ vm.go / ref_counter.go / stack.go / slot.go maintain it, `reach` = what a walk f
 -/
 import NeoModel.Proofs.VmAcctBase
 import NeoModel.Proofs.VmAcctUnwind
+import NeoModel.Proofs.VmAcctDepth
 import NeoModel.Proofs.VmAcctGas
 import NeoModel.Proofs.VmAcctSpecSizeRun
 import NeoModel.Proofs.ScriptCheck
@@ -249,6 +250,54 @@ example : ∃ s lk, RunG s lk ∧ Acyclic s.c.heap ∧ lk = [.prim, .prim, .prim
     simp [AcycAll, unwindWitness, acyclic_nil, step, exec, execS, St.init, St.w, St.setW, St.cur, St.setCur, curOf, setCurOf, ok, W.popN,
       W.pushPrims, W.push, W.pop, Ctr.add, Ctr.rem, Ctr.addAll, Ctr.remAll, addW, remW, Item.cid, unwind, unwindFrames,
       unloadSlots, slotItems, maxStackSize, maxInvocationStackSize]
+
+/-! ### evaluation stacks shared between contexts, invocation depth -/
+
+/-- **shared_stack_unwind.** The complement of the finding: CALL* never gives the callee its own
+evaluation stack, a loaded script shares the caller's stack exactly when it is loaded with rvcount = −1
+and the caller's stack is empty after the arguments were taken (vm.go:490), and an exception that
+crosses only contexts sharing the handler's stack drops nothing: the handler continues on the thrower's
+stack with the callee's items still there (counted and reachable), under the exception if it is a
+CATCH. -/
+theorem shared_stack_unwind :
+    (∀ (s : St) (pops : Nat) (r : Res), exec (.call pops) s = some r → ∃ f rest, r.s.frames = f :: rest ∧ f.own = none) ∧
+    (∀ (s : St) (mode nargs : Nat) (r : Res), exec (.load mode nargs) s = some r →
+      ∃ f rest, r.s.frames = f :: rest ∧ (f.own = none ↔ (mode ≠ 0 ∧ s.cur.length = nargs))) ∧
+    (∀ (s s' : St) (x : Item) (k : Nat) (c : Bool), unwind s x k c = some s' → (∀ f ∈ s.frames.take k, f.own = none) →
+      s'.cur = (if c then x :: s.cur else s.cur) ∧ droppedOf k s.frames = []) :=
+  ⟨fun _ _ _ h => call_shares h, fun _ _ _ _ h => load_shares_iff h, fun _ _ _ _ _ h hs => unwind_shared h hs⟩
+
+/-- the corpus case `unwind-shared-estack` as an instruction stream: the callee (loaded with rvcount −1
+on an empty caller stack) pushes four items and throws the top one; the caller's CATCH finds the three
+others under the exception, everything counted and reachable: 4 = 4. -/
+def sharedWitness : List (Op × Option (Nat × Bool)) :=
+  [(.nop, none), (.load 1 0, none), (.s (.generic 0 1), none), (.s (.generic 0 1), none), (.s (.generic 0 1), none),
+   (.s (.generic 0 1), none), (.throw_, some (1, true))]
+
+theorem shared_witness :
+    (runOpsG St.init [] sharedWitness).map (fun p => (p.1.c.refs, p.1.reach, p.1.cur.length, p.2)) = some (4, 4, 4, []) := by
+  simp [runOpsG, sharedWitness, droppedBy, droppedOf, step, exec, execS, St.init, St.w, St.setW, St.cur, St.setCur, curOf, setCurOf, ok, W.popN,
+    W.pushPrims, W.push, W.pop, Ctr.add, Ctr.rem, Ctr.addAll, Ctr.remAll, addW, remW, Item.cid, unwind, unwindFrames,
+    unloadSlots, slotItems, St.reach, reachFrom, St.roots, Frame.roots, walk, childSum, maxStackSize, maxInvocationStackSize]
+
+/-- **acct_depth.** The invocation depth is an invariant of the accounting machine (the one tied to
+the real VM instruction by instruction): in every reachable state it is at most MaxInvocationStackSize
+and, until the machine halts, at least 1; and every step meets what `Eff.okFor` of the abstract priced
+machine assumes about depths: a step that does not halt leaves 1 ≤ depth ≤ maxDepth, only a RET at
+depth 1 halts, no step raises the depth by more than one. -/
+theorem acct_depth (s : St) (h : Run s) :
+    s.depth ≤ maxInvocationStackSize ∧ (s.halted = true ∨ 1 ≤ s.depth) ∧
+    ∀ (op : Op) (unw : Option (Nat × Bool)) (ext : Bool) (s' : St), step s op unw ext = some s' →
+      (s'.halted = false → 1 ≤ s'.depth ∧ s'.depth ≤ VmGas.maxDepth) ∧ (s'.halted = true → op = .ret ∧ s.depth = 1) ∧
+        s'.depth ≤ s.depth + 1 :=
+  ⟨(run_depth h).1, (run_depth h).2, fun _ _ _ _ hs => acct_eff_ok h hs⟩
+
+/-- non-vacuity: `CALL` from the entry context reaches depth 2, the two RETs halt the machine from depth 1 -/
+example : (runOps St.init [(.call 0, none), (.ret, none), (.ret, none)]).map (fun s => (s.depth, s.halted)) = some (0, true) ∧
+    (runOps St.init [(.call 0, none)]).map (fun s => s.depth) = some 2 := by
+  constructor <;>
+  simp [runOps, step, exec, St.init, St.w, St.setW, St.cur, St.setCur, curOf, setCurOf, ok, W.popN, unloadSlots, slotItems,
+    Ctr.remAll, remW, St.depth, maxStackSize, maxInvocationStackSize]
 
 /-- the corpus case `map-remove-cyclic` as an instruction stream of the model: `m[1] = [m]`, all
 other references dropped, then `REMOVE(m, 1)`. -/
